@@ -1,11 +1,15 @@
 //! C14 / C15 harness for the TRANSFAC reader (`lightmotif_io::transfac`).
 //!
 //! `transfac c14 gen --seed S --n N [--tier t]` prints input lines
-//!     <id> fmt=transfac alpha=dna|protein le=lf|crlf fnl=0|1 vv=-|h<hex> lay=canon|<seed> [wf=1] caps=<c,c,..> pat=<n.n.n> recs=<records>
+//!     <id> fmt=transfac alpha=dna|protein le=lf|crlf fnl=0|1 vv=-|h<hex> lay=canon|<seed> [wf=1] caps=<c,c,..> pat=<n.n.n> [post=<k>] recs=<records>
 //!     (wf=1: the generator claims the case meets TransfacPrint.wf_file, the hypothesis of C14.reader_roundtrip)
 //!     <id> alpha=dna caps=.. pat=.. file=<path>                      (bundled data, corpus only)
 //! `transfac c15 gen ...` prints
-//!     <id> alpha=dna|protein caps=<c,c,..> pat=<n.n.n> data=<hex>
+//!     <id> alpha=dna|protein caps=<c,c,..> pat=<n.n.n> [post=<k>] [evs=<script>/<script>..] data=<hex>
+//!     (post: `next()` is called k more times after the first outcome that is not a record; evs: streams
+//!      whose `fill_buf` fails, script = `.`-joined events <n> (the next n bytes become available) | Eo
+//!      (fill_buf returns an error of kind Other, once) | Ei (kind Interrupted); the outcome sequences of
+//!      these streams are printed as ` eobs=<seq>;<seq>..`)
 //! Every line of this group carries the token `fmt=transfac`; `run` echoes any other line (corpus
 //! lines of the io group) followed by ` => skip`.
 //! `transfac c14|c15 run` reads input lines on stdin and prints them followed by
@@ -14,11 +18,11 @@
 //! one outcome sequence per chunking (the `caps` through `BufReader::with_capacity(c, Cursor)`
 //! in order, then the cyclic chunk-size pattern `pat` through a custom `BufRead`); a sequence
 //! that equals the first one is printed as `=`.  A sequence is the `|`-joined list of outcomes of
-//! `Reader::new` + `next()` until the first error or end of input:
-//!     R:<id>:<ac>:<name>:<desc>:<data>:<refs>:<counts>  |  E:io  |  E:nom  |  END  |  PANIC  |  HANG | NOPROGRESS
+//! `Reader::new` + `next()` until the first error or end of input, then `post` more calls (a PANIC ends it):
+//!     R:<id>:<ac>:<name>:<desc>:<data>:<refs>:<counts>:<freq0>:<freq5>  |  E:io  |  E:nom  |  END  |  PANIC  |  HANG | NOPROGRESS
 //! optional strings are `-` or `h<hex>`; data is `-` or `m` + rows (`/`) of f32 bit patterns (`,`);
 //! refs is `-` or `/`-joined `local,xref,title,link,pmid`; counts (`Record::to_counts`) is `-` or
-//! `c` + rows of u32.  Every call into the library runs under `catch_unwind` on a watched thread.
+//! `c` + rows of u32; freq0 / freq5 (`Record::to_freq(0.0)` / `(0.5)`) are `-` or `q` + rows of f32 bit patterns.  Every call into the library runs under `catch_unwind` on a watched thread.
 //!
 //! Record encoding in `recs=` (records joined by `;`):
 //!     <id>:<ac>:<na>:<de>:<syms>:<rows>:<refs>:<po>:<sep>
@@ -116,6 +120,80 @@ impl BufRead for Chunked {
     }
 }
 
+/// One event of a scripted stream: deliver the next `n` bytes as one chunk, or fail the `fill_buf` call.
+#[derive(Clone, Copy, Debug)]
+enum Ev {
+    Data(usize),
+    Fail,  // io::ErrorKind::Other: returned to the caller of read_line
+    Intr,  // io::ErrorKind::Interrupted: retried inside std's read_until
+}
+
+fn parse_script(s: &str) -> Vec<Ev> {
+    s.split('.')
+        .filter(|x| !x.is_empty())
+        .map(|x| match x {
+            "Eo" => Ev::Fail,
+            "Ei" => Ev::Intr,
+            n => Ev::Data(n.parse().unwrap()),
+        })
+        .collect()
+}
+
+/// A `BufRead` driven by a script: when the current chunk is used up, `fill_buf` takes the next
+/// event -- `Data(n)` makes the next n bytes available (skipped when no byte is left), `Fail` /
+/// `Intr` make this call of `fill_buf` return an error (once) -- and, when the script is used up,
+/// delivers the rest of the data as one chunk.  (Model: TransfacFault.estream.)
+struct EvChunked {
+    data: Vec<u8>,
+    pos: usize,
+    end: usize,
+    script: Vec<Ev>,
+    k: usize,
+}
+
+impl EvChunked {
+    fn new(data: Vec<u8>, script: Vec<Ev>) -> Self {
+        EvChunked { data, pos: 0, end: 0, script, k: 0 }
+    }
+}
+
+impl Read for EvChunked {
+    fn read(&mut self, buf: &mut [u8]) -> std::io::Result<usize> {
+        let n = {
+            let a = self.fill_buf()?;
+            let n = a.len().min(buf.len());
+            buf[..n].copy_from_slice(&a[..n]);
+            n
+        };
+        self.consume(n);
+        Ok(n)
+    }
+}
+
+impl BufRead for EvChunked {
+    fn fill_buf(&mut self) -> std::io::Result<&[u8]> {
+        while self.pos == self.end {
+            if self.k < self.script.len() {
+                let ev = self.script[self.k];
+                self.k += 1;
+                match ev {
+                    Ev::Fail => return Err(std::io::Error::new(std::io::ErrorKind::Other, "injected fault")),
+                    Ev::Intr => return Err(std::io::Error::new(std::io::ErrorKind::Interrupted, "injected interrupt")),
+                    Ev::Data(n) => self.end = (self.pos + n.max(1)).min(self.data.len()),
+                }
+            } else if self.end < self.data.len() {
+                self.end = self.data.len();
+            } else {
+                break;
+            }
+        }
+        Ok(&self.data[self.pos..self.end])
+    }
+    fn consume(&mut self, amt: usize) {
+        self.pos = (self.pos + amt).min(self.end);
+    }
+}
+
 // ---------------------------------------------------------------- running the implementation
 
 fn show_record<A: Alphabet>(r: &lightmotif_io::transfac::Record<A>) -> String {
@@ -163,31 +241,55 @@ fn show_record<A: Alphabet>(r: &lightmotif_io::transfac::Record<A>) -> String {
             format!("c{}", rows.join("/"))
         }
     };
-    // conversions that must not panic either (result not compared)
-    let _ = r.to_freq(0.0);
-    let _ = r.to_freq(0.5);
+    // Record::to_freq with the scalar pseudocounts 0.0 and 0.5 (model: TransfacFreq.to_freq)
+    let freq = |c: f32| match r.to_freq(c) {
+        None => "-".to_string(),
+        Some(f) => {
+            let rows: Vec<String> = f
+                .matrix()
+                .iter()
+                .map(|row| {
+                    row.iter()
+                        .map(|x| if x.is_nan() { 0x7fc00000u32 } else { x.to_bits() }.to_string())
+                        .collect::<Vec<_>>()
+                        .join(",")
+                })
+                .collect();
+            format!("q{}", rows.join("/"))
+        }
+    };
     format!(
-        "R:{}:{}:{}:{}:{}:{}:{}",
+        "R:{}:{}:{}:{}:{}:{}:{}:{}:{}",
         opt_hex(r.id()),
         opt_hex(r.accession()),
         opt_hex(r.name()),
         opt_hex(r.description()),
         data,
         refs,
-        counts
+        counts,
+        freq(0.0),
+        freq(0.5)
     )
 }
 
-fn read_all<A: Alphabet, B: BufRead>(b: B, cap: usize) -> String {
+/// `Reader::new`, then `next()` until the first outcome that is not a record, then `post` more
+/// calls of `next()` whatever they return (C15: *each* request returns -- also after an error or
+/// after the end of input).  A panic ends the sequence (the reader's state is gone).
+fn read_all<A: Alphabet, B: BufRead>(b: B, cap: usize, post: usize) -> String {
     let mut out: Vec<String> = vec![];
     let mut reader = match no_panic(|| lightmotif_io::transfac::read::<B, A>(b)) {
         None => return "PANIC".to_string(),
         Some(r) => r,
     };
+    let mut after: Option<usize> = None; // polls made after the first non-record outcome
     loop {
-        if out.len() > cap {
-            out.push("NOPROGRESS".to_string());
-            break;
+        match after {
+            Some(k) if k >= post => break,
+            None if out.len() > cap => {
+                out.push("NOPROGRESS".to_string());
+                break;
+            }
+            _ => {}
         }
         // the record is rendered inside the guarded call: to_counts/to_freq are library code too
         let step = no_panic(|| match reader.next() {
@@ -203,10 +305,15 @@ fn read_all<A: Alphabet, B: BufRead>(b: B, cap: usize) -> String {
                 break;
             }
             Some(s) => {
-                let stop = !s.starts_with("R:");
+                let rec = s.starts_with("R:");
                 out.push(s);
-                if stop {
-                    break;
+                match after.as_mut() {
+                    Some(k) => *k += 1,
+                    None => {
+                        if !rec {
+                            after = Some(0);
+                        }
+                    }
                 }
             }
         }
@@ -218,9 +325,10 @@ fn read_all<A: Alphabet, B: BufRead>(b: B, cap: usize) -> String {
 enum Chunking {
     Cap(usize),
     Pat(Vec<usize>),
+    Ev(Vec<Ev>),
 }
 
-fn run_chunking<A: Alphabet>(data: &[u8], ch: &Chunking) -> String {
+fn run_chunking<A: Alphabet>(data: &[u8], ch: &Chunking, post: usize) -> String {
     let d = data.to_vec();
     let ch = ch.clone();
     let (tx, rx) = mpsc::channel();
@@ -229,8 +337,9 @@ fn run_chunking<A: Alphabet>(data: &[u8], ch: &Chunking) -> String {
         .stack_size(16 << 20)
         .spawn(move || {
             let s = match ch {
-                Chunking::Cap(c) => read_all::<A, _>(BufReader::with_capacity(c, Cursor::new(d)), cap),
-                Chunking::Pat(p) => read_all::<A, _>(Chunked::new(d, p), cap),
+                Chunking::Cap(c) => read_all::<A, _>(BufReader::with_capacity(c, Cursor::new(d)), cap, post),
+                Chunking::Pat(p) => read_all::<A, _>(Chunked::new(d, p), cap, post),
+                Chunking::Ev(e) => read_all::<A, _>(EvChunked::new(d, e), cap, post),
             };
             let _ = tx.send(s);
         })
@@ -257,12 +366,12 @@ fn chunkings(f: &std::collections::HashMap<String, String>) -> Vec<Chunking> {
     v
 }
 
-fn observe(alpha: &str, data: &[u8], chs: &[Chunking]) -> String {
+fn observe(alpha: &str, data: &[u8], chs: &[Chunking], post: usize) -> String {
     let mut seqs: Vec<String> = vec![];
     for ch in chs {
         let s = match alpha {
-            "protein" => run_chunking::<Protein>(data, ch),
-            _ => run_chunking::<Dna>(data, ch),
+            "protein" => run_chunking::<Protein>(data, ch, post),
+            _ => run_chunking::<Dna>(data, ch, post),
         };
         if !seqs.is_empty() && s == seqs[0] {
             seqs.push("=".to_string());
@@ -271,6 +380,26 @@ fn observe(alpha: &str, data: &[u8], chs: &[Chunking]) -> String {
         }
     }
     seqs.join(";")
+}
+
+/// outcome sequences of the scripted streams (`evs=<script>/<script>..`), `;`-joined, never abbreviated
+fn observe_ev(alpha: &str, data: &[u8], f: &std::collections::HashMap<String, String>, post: usize) -> String {
+    match f.get("evs") {
+        None => String::new(),
+        Some(e) => {
+            let seqs: Vec<String> = e
+                .split('/')
+                .map(|sc| {
+                    let ch = Chunking::Ev(parse_script(sc));
+                    match alpha {
+                        "protein" => run_chunking::<Protein>(data, &ch, post),
+                        _ => run_chunking::<Dna>(data, &ch, post),
+                    }
+                })
+                .collect();
+            format!(" eobs={}", seqs.join(";"))
+        }
+    }
 }
 
 // ---------------------------------------------------------------- records and printers
@@ -1022,7 +1151,8 @@ fn gen_c14(rng: &mut Rng, id: usize, tier: &str) -> String {
     };
     let f = gen_file(rng, nrec, maxw);
     let recs: Vec<String> = f.recs.iter().map(enc_rec).collect();
-    format!("g{} fmt=transfac {} caps=1,2,3,5,17,64,8192,1048576 pat={} recs={}", id, f.tokens(), gen_pattern(rng), recs.join(";"))
+    // two more requests after the end of input (C14.reader_roundtrip_post: the end of input is final)
+    format!("g{} fmt=transfac {} caps=1,2,3,5,17,64,8192,1048576 pat={} post=2 recs={}", id, f.tokens(), gen_pattern(rng), recs.join(";"))
 }
 
 fn mutate(rng: &mut Rng, base: &[u8]) -> Vec<u8> {
@@ -1149,6 +1279,118 @@ fn mutate(rng: &mut Rng, base: &[u8]) -> Vec<u8> {
     d
 }
 
+/// Damage to the UTF-8 structure of a valid file: an invalid byte (or a truncated / orphaned part of
+/// a multi-byte character) substituted or inserted at any offset -- in particular on a line that is
+/// not the first of its record, where `Reader::next` has already advanced `last` --, and whole
+/// multi-byte characters at the start of a line or anywhere.
+fn utf8_damage(rng: &mut Rng, base: &[u8]) -> Vec<u8> {
+    let mut d = base.to_vec();
+    let bad: &[&[u8]] = &[b"\xff", b"\xc3", b"\x80", b"\xa9", b"\xe2\x80", b"\xf0\x9f", b"\xc0\xaf", b"\xed\xa0\x80", b"\xf8"];
+    let good: &[&str] = &["\u{e9}", "\u{2003}", "\u{20ac}", "\u{1d11e}", "\u{a0}", "\u{3000}"];
+    let line_starts: Vec<usize> =
+        std::iter::once(0).chain(d.iter().enumerate().filter(|(_, b)| **b == b'\n').map(|(i, _)| i + 1)).filter(|i| *i <= d.len()).collect();
+    match rng.below(6) {
+        0 | 1 => {
+            // invalid bytes substituted at a random offset
+            if !d.is_empty() {
+                let k = rng.below(d.len() as u64) as usize;
+                let b = *rng.pick(bad);
+                for (i, x) in b.iter().enumerate() {
+                    if k + i < d.len() && d[k + i] != b'\n' {
+                        d[k + i] = *x;
+                    }
+                }
+            }
+        }
+        2 => {
+            // invalid bytes inserted at a random offset
+            let k = rng.below(d.len() as u64 + 1) as usize;
+            let b = *rng.pick(bad);
+            for (i, x) in b.iter().enumerate() {
+                d.insert(k + i, *x);
+            }
+        }
+        3 => {
+            // an invalid byte at the start of a line
+            let k = *rng.pick(&line_starts);
+            let b = *rng.pick(bad);
+            for (i, x) in b.iter().enumerate() {
+                d.insert(k + i, *x);
+            }
+        }
+        4 => {
+            // a multi-byte character at the start of a line
+            let k = *rng.pick(&line_starts);
+            let g = rng.pick(good).as_bytes().to_vec();
+            for (i, x) in g.iter().enumerate() {
+                d.insert(k + i, *x);
+            }
+        }
+        _ => {
+            // multi-byte characters anywhere
+            for _ in 0..1 + rng.below(3) {
+                let k = rng.below(d.len() as u64 + 1) as usize;
+                let g = rng.pick(good).as_bytes().to_vec();
+                for (i, x) in g.iter().enumerate() {
+                    d.insert(k + i, *x);
+                }
+            }
+        }
+    }
+    d
+}
+
+/// A script for `EvChunked`: chunk sizes with `fill_buf` failures (Eo) / interruptions (Ei) between them.
+fn gen_script(rng: &mut Rng, len: usize) -> String {
+    let mut ev: Vec<String> = vec![];
+    match rng.below(4) {
+        0 => {
+            // one fault after a random number of bytes (any offset: inside a line, inside a character)
+            ev.push((1 + rng.below(len as u64 + 1)).to_string());
+            ev.push("Eo".to_string());
+        }
+        1 => {
+            // faults after a few random prefixes, then the rest
+            let mut left = len as u64;
+            for _ in 0..1 + rng.below(4) {
+                let n = 1 + rng.below(left.max(1));
+                left = left.saturating_sub(n);
+                ev.push(n.to_string());
+                ev.push(if rng.chance(1, 5) { "Ei" } else { "Eo" }.to_string());
+            }
+        }
+        2 => {
+            // a fault before anything is read / two faults in a row / a fault at the end of input
+            if rng.chance(1, 2) {
+                ev.push("Eo".to_string());
+            }
+            ev.push((1 + rng.below(len as u64 + 1)).to_string());
+            ev.push("Eo".to_string());
+            if rng.chance(1, 2) {
+                ev.push("Eo".to_string());
+            }
+            if rng.chance(1, 2) {
+                ev.push((len + 1).to_string());
+                ev.push("Eo".to_string());
+            }
+        }
+        _ => {
+            // small chunks with sprinkled faults
+            for _ in 0..2 + rng.below(12) {
+                let k = rng.below(10);
+                if k < 6 {
+                    ev.push((1 + rng.below(12)).to_string());
+                } else if k < 9 {
+                    ev.push("Eo".to_string());
+                } else {
+                    ev.push("Ei".to_string());
+                }
+            }
+        }
+    }
+    ev.join(".")
+}
+
 fn gen_c15(rng: &mut Rng, id: usize, _tier: &str) -> String {
     let k = rng.below(100);
     let (alpha, data): (String, Vec<u8>) = if k < 4 {
@@ -1158,11 +1400,23 @@ fn gen_c15(rng: &mut Rng, id: usize, _tier: &str) -> String {
         let n = rng.below(120) as usize;
         let abc: &[u8] = b"ACGTNP0OXVIDRXLATEC/ \t\n\r.0123456789e+-[];():";
         ("dna".to_string(), (0..n).map(|_| abc[rng.below(abc.len() as u64) as usize]).collect())
+    } else if k < 28 {
+        // multi-record files with damaged UTF-8 (the reader must survive being polled after the error)
+        let nrec = 2 + rng.below(3);
+        let f = gen_file(rng, nrec, 4);
+        let mut d = f.bytes();
+        for _ in 0..1 + rng.below(2) {
+            d = utf8_damage(rng, &d);
+        }
+        if rng.chance(1, 5) {
+            d = mutate(rng, &d);
+        }
+        (f.alpha.clone(), d)
     } else {
         let nrec = 1 + rng.below(3);
         let f = gen_file(rng, nrec, 5);
         let mut d = f.bytes();
-        let rounds = if k < 20 { 0 } else if k < 85 { 1 } else { 2 };
+        let rounds = if k < 36 { 0 } else if k < 88 { 1 } else { 2 };
         for _ in 0..rounds {
             d = mutate(rng, &d);
         }
@@ -1174,7 +1428,18 @@ fn gen_c15(rng: &mut Rng, id: usize, _tier: &str) -> String {
         2 => "3,1048576",
         _ => "5,17",
     };
-    format!("g{} fmt=transfac alpha={} caps={} pat={} data={}", id, alpha, caps, gen_pattern(rng), hex(&data))
+    let pat = gen_pattern(rng);
+    // requests made after the first error / end of input
+    let post = *rng.pick(&[0u64, 1, 2, 3, 4, 4, 4, 6]);
+    // streams whose fill_buf fails: 0..2 scripts
+    let nscripts = match rng.below(10) {
+        0..=4 => 0,
+        5..=8 => 1,
+        _ => 2,
+    };
+    let evs: Vec<String> = (0..nscripts).map(|_| gen_script(rng, data.len())).collect();
+    let evs = if evs.is_empty() { String::new() } else { format!(" evs={}", evs.join("/")) };
+    format!("g{} fmt=transfac alpha={} caps={} pat={} post={}{} data={}", id, alpha, caps, pat, post, evs, hex(&data))
 }
 
 // ---------------------------------------------------------------- main
@@ -1207,9 +1472,10 @@ fn main() {
                 let (_id, f) = fields(&line);
                 let alpha = f.get("alpha").cloned().unwrap_or_else(|| "dna".to_string());
                 let chs = chunkings(&f);
+                let post: usize = f.get("post").and_then(|s| s.parse().ok()).unwrap_or(0);
                 if let Some(d) = f.get("data") {
                     let data = unhex(d);
-                    println!("{} => obs={}", line, observe(&alpha, &data, &chs));
+                    println!("{} => obs={}{}", line, observe(&alpha, &data, &chs, post), observe_ev(&alpha, &data, &f, post));
                 } else if let Some(p) = f.get("file") {
                     // bundled files are read from the tree under test (VERIF_REPO=<scratch worktree>)
                     let path = match (std::env::var("VERIF_REPO"), p.strip_prefix("/repo/")) {
@@ -1217,7 +1483,7 @@ fn main() {
                         _ => p.clone(),
                     };
                     let data = std::fs::read(&path).unwrap_or_default();
-                    println!("{} => data={} obs={}", line, hex(&data), observe(&alpha, &data, &chs));
+                    println!("{} => data={} obs={}", line, hex(&data), observe(&alpha, &data, &chs, post));
                 } else {
                     let recs: Vec<Rec> = f.get("recs").map(|s| s.split(';').map(dec_rec).collect()).unwrap_or_default();
                     let spec = FileSpec {
@@ -1229,7 +1495,7 @@ fn main() {
                         recs,
                     };
                     let data = spec.bytes();
-                    println!("{} => data={} obs={}", line, hex(&data), observe(&alpha, &data, &chs));
+                    println!("{} => data={} obs={}", line, hex(&data), observe(&alpha, &data, &chs, post));
                 }
             }
         }
